@@ -191,6 +191,15 @@ def one_history(ctx, index, rng: random.Random):
                     weighted_or_mixed = weighted_or_mixed or np.dtype(o.dtype) != before_dtype
                     if op == "add":
                         h = h + o if rng.random() < 0.6 else o + h
+                    elif op in ("sub", "isub") and rng.random() < 0.3:
+                        # the same subtraction while free arithmetics is on: the type rule does not depend on the switch
+                        from physt.config import config as _cfg
+
+                        with _cfg.enable_free_arithmetics():
+                            if op == "sub":
+                                h = h - o
+                            else:
+                                h -= o
                     elif op == "sub":
                         h = h - o
                     elif op == "iadd":
@@ -334,6 +343,19 @@ def one_history(ctx, index, rng: random.Random):
                         except Exception:
                             pass
                         f0, e0 = shadow_of(h)
+                    if rng.random() < 0.1 and np.dtype(h.dtype).kind == "f" and h.frequencies.size and target in ("int16", "int32", "int64"):
+                        # a content exactly one above the target's largest value (2**15, 2**31, 2**63 are exact floats): out of range
+                        bits_ = {"int16": 15, "int32": 31, "int64": 63}[target]
+                        if float(2.0**bits_) <= float(np.finfo(np.dtype(h.dtype)).max):
+                            fr = np.asarray(h.frequencies, dtype=h.dtype).copy()
+                            fr.flat[rng.randrange(fr.size)] = 2.0**bits_
+                            try:
+                                h.frequencies = fr
+                                h.errors2 = np.ones(h.shape, dtype=h.dtype)
+                            except Exception:
+                                pass
+                            f0, e0 = shadow_of(h)
+                            before_dtype = np.dtype(h.dtype)
                     if rng.random() < 0.3 and h.total < 1e6:
                         h *= rng.choice([1000, 40000])  # make range refusals reachable
                         if rng.random() < 0.5:
